@@ -90,6 +90,15 @@ func c07random(rng *core.Rng, pfx string, maxLen int) []xMsg {
 		}
 		return core.Pick(rng, xNames)
 	}
+	if rng.Intn(10) == 0 {
+		// Parse, Close, the very same Parse again: the name resolves again (a server that remembers what it
+		// has parsed must forget it on Close)
+		id := pfx + ".again"
+		nm := core.Pick(rng, xNames)
+		pm := xMsg{K: "parse", Name: nm, Query: "P " + id, Prog: xProg(id, 3+rng.Intn(2))}
+		h = append(h, pm, xMsg{K: "closeS", Name: nm}, pm)
+		defS[nm] = true
+	}
 	for i := 0; i < n; i++ {
 		id := fmt.Sprintf("%s.%d", pfx, i)
 		failed := false
@@ -144,6 +153,12 @@ func c07random(rng *core.Rng, pfx string, maxLen int) []xMsg {
 				m.Params[1] = []byte(strings.Repeat(fmt.Sprintf("big%d.", i), 700+rng.Intn(600))) // a Bind of 4-9 KiB
 			} else if rng.Intn(3) == 0 {
 				m.Params[1] = []byte(core.Pick(rng, []string{"2024-02-29 10:00:00", "2024-02-29", "1999-12-31 23:59:59.5", "2024-02-29 10:00"})) // what a handler may want to complete
+			}
+			if rng.Intn(7) == 0 {
+				// more result format codes than the statement has columns: a server may refuse such a Bind
+				// (PostgreSQL does), and the portal name then keeps resolving to what it did
+				m.RFmts = []int16{1, 0, 1, 0}[:3+rng.Intn(2)]
+				failed = true
 			}
 			h = append(h, m)
 			if defS[name] {
